@@ -21,7 +21,9 @@ ASSUMPTIONS = ["values are drawn from what the value's state type represents los
 SHARD_TIMEOUT = {"quick": 900, "thorough": 5400}
 
 KEYS = ["a", "a/b", "a/b-c", "a-b/c", "A", "a~Ib", "a~_b", "x-~X~y~E", "x-~X~/y/z~E", "-R/a/b/-/dr", "a/b/-/dr",
-        "a%41", "aA", "/a", "/a/b", "k" * 120 + "/" + "m" * 120, "a/b.txt", "café-€", "a b"]
+        "a%41", "aA", "/a", "/a/b", "k" * 120 + "/" + "m" * 120, "a/b.txt", "café-€", "a b",
+        # a query text longer than any column width a back-end may have in mind (about 2600 characters)
+        "/".join("w%02d-%s" % (i, "x" * 180) for i in range(14))]
 
 
 def shards(tier, seed):
